@@ -151,6 +151,9 @@ type runnablePipeline struct {
 	// ack contamination is impossible. See
 	// docs/design-documents/20260801-archv2-multiconnector-nsource.md.
 	workers []*funnel.Worker
+	// processors holds every processor made runnable for this pipeline (source,
+	// pipeline and destination processors alike); see releaseUnopenedProcessors.
+	processors []*processor.RunnableProcessor
 	// sourceIDs[i] is the connector ID of workers[i]'s source. Parallel to
 	// workers; used for diagnostics only (naming which source a worker's
 	// outcome belongs to in logs/errors).
@@ -1042,10 +1045,11 @@ func (s *Service) buildRunnablePipeline(
 	}
 
 	return &runnablePipeline{
-		pipeline:  pl,
-		workers:   workers,
-		sourceIDs: sourceIDs,
-		sink:      sink,
+		pipeline:   pl,
+		workers:    workers,
+		processors: built,
+		sourceIDs:  sourceIDs,
+		sink:       sink,
 		// Seed a fresh backoff and attempt counter. Start carries these onto the
 		// next runnablePipeline across a recovery restart. Mirrors
 		// pkg/lifecycle.buildRunnablePipeline; the backoff parameters come from
@@ -1401,6 +1405,30 @@ func (s *Service) buildDLQ(
 	), nil
 }
 
+// releaseUnopenedProcessors tears down the processors of a pipeline whose start
+// failed while its tasks were being opened. Making a processor runnable (when
+// the pipeline is built) marks its instance running; the tasks that were opened
+// before the failure are closed by the roll-back of the open, which releases
+// their processors, but the tasks the start never got to - the rest of the
+// failing worker, every later worker, or all of them if the shared sink could
+// not be opened - are neither run nor closed by anyone. Without this their
+// instances stayed reserved and every later Start of the pipeline failed with
+// "processor already running" until the server was restarted.
+func (s *Service) releaseUnopenedProcessors(rp *runnablePipeline) {
+	ctx := context.Background()
+	for _, p := range rp.processors {
+		if !p.Reserved() {
+			continue
+		}
+		if err := p.Teardown(ctx); err != nil {
+			s.logger.Warn(ctx).Err(err).
+				Str(log.PipelineIDField, rp.pipeline.ID).
+				Str(log.ProcessorIDField, p.ID).
+				Msg("could not tear down processor of a pipeline that failed to start")
+		}
+	}
+}
+
 // runPipeline starts every worker in rp.workers plus one cleanup goroutine,
 // all registered on rp.t (see the registered/startupDone barriers below —
 // unchanged in spirit from the pre-3b single-worker version, just generalized
@@ -1464,6 +1492,7 @@ func (s *Service) runPipeline(rp *runnablePipeline) error {
 	// other end of this function — closed exactly once, only after every
 	// worker has exited (workersWg.Wait below). See funnel.Sink's doc.
 	if err := rp.sink.Open(ctx); err != nil {
+		s.releaseUnopenedProcessors(rp)
 		return cerrors.Errorf("failed to open shared sink: %w", err)
 	}
 
@@ -1478,6 +1507,7 @@ func (s *Service) runPipeline(rp *runnablePipeline) error {
 				_ = opened[j].Close(context.Background())
 			}
 			_ = rp.sink.Close(context.Background())
+			s.releaseUnopenedProcessors(rp)
 			return cerrors.Errorf("failed to open worker for source %s: %w", rp.sourceIDs[i], err)
 		}
 		opened = append(opened, w)
